@@ -85,6 +85,47 @@ theorem pending_none_of {s : State} (w : WF s) (h : s.handler = none) : s.pendin
     obtain ⟨h', e, _⟩ := w.pendingStop (by simp [hpd])
     simp_all
 
+theorem chunkEnd_bounds {c : Cfg} {pos hi : Nat} (h : pos < hi) :
+    pos < chunkEnd c pos hi ∧ chunkEnd c pos hi ≤ hi := by
+  unfold chunkEnd
+  split
+  · omega
+  · omega
+
+/-- `WF` only looks at the control fields. -/
+theorem wf_congr {s s' : State} (w : WF s) (h1 : s'.nLogs = s.nLogs) (h2 : s'.handler = s.handler)
+    (h3 : s'.cur = s.cur) (h4 : s'.pending = s.pending) (h5 : s'.mgrUp = s.mgrUp)
+    (h6 : s'.created = s.created) : WF s' := by
+  have a1 := w.pcOk; have a2 := w.sendingBusy; have a3 := w.curNone
+  have a4 := w.pendingStop; have a5 := w.stopPending; have a6 := w.handlerUp
+  constructor <;> simp_all
+
+theorem exporterCall_fields (s : State) (a b : Nat) (r : AcceptRes) :
+    (exporterCall s a b r).nLogs = s.nLogs ∧ (exporterCall s a b r).handler = s.handler ∧
+    (exporterCall s a b r).cur = s.cur ∧ (exporterCall s a b r).pending = s.pending ∧
+    (exporterCall s a b r).mgrUp = s.mgrUp ∧ (exporterCall s a b r).created = s.created ∧
+    (exporterCall s a b r).orphans = s.orphans ∧ (exporterCall s a b r).persisted = s.persisted ∧
+    (exporterCall s a b r).ackHW = s.ackHW ∧ (exporterCall s a b r).resets = s.resets ∧
+    (exporterCall s a b r).gen = s.gen := by
+  cases r <;> simp [exporterCall, ackItems, deliver]
+
+theorem wf_exporterCall {s : State} (w : WF s) (a b : Nat) (r : AcceptRes) : WF (exporterCall s a b r) := by
+  have f := exporterCall_fields s a b r
+  exact wf_congr w f.1 f.2.1 f.2.2.1 f.2.2.2.1 f.2.2.2.2.1 f.2.2.2.2.2.1
+
+theorem wf_exportDone {c : Cfg} {s : State} {h : Handler} {hi : Nat} {more : Bool} (w : WF s)
+    (hh : s.handler = some h) (hne : ∀ m, h.pc ≠ .sending m) : WF (exportDone c s h hi more) := by
+  unfold exportDone
+  split
+  · have w1 : WF { ack s hi with cur := some hi } := by
+      have := w.pendingStop; have := w.stopPending; have := w.handlerUp; have := w.pcOk
+      constructor <;> simp_all [ack] <;> grind
+    exact wf_afterSend w1 (h0 := h) (by simp [ack, hh]) rfl (by simp)
+  · have h1 := w.pendingStop
+    have h2 := w.stopPending h hh
+    have h3 := w.handlerUp
+    constructor <;> simp_all [ack, PcOk] <;> grind
+
 theorem wf_step {c : Cfg} {s s' : State} {l : Label} (w : WF s) (hs : step c s l = some s') : WF s' := by
   cases l with
   | append n =>
@@ -189,7 +230,9 @@ theorem wf_step {c : Cfg} {s s' : State} {l : Label} (w : WF s) (hs : step c s l
       · split at hs
         · split at hs
           · simp at hs; subst hs
-            exact wf_atSelect w hh rfl (by simp only [PcOk]; exact ⟨trivial, by omega, by omega⟩) (by simp)
+            exact wf_atSelect w hh rfl
+              (by simp only [PcOk, enterExport]; exact ⟨trivial, by omega, by omega, by omega, by omega⟩)
+              (by simp [enterExport])
           · simp at hs; subst hs
             exact wf_atSelect w hh rfl (by simp [PcOk]) (by simp)
         · simp at hs; subst hs
@@ -201,38 +244,23 @@ theorem wf_step {c : Cfg} {s s' : State} {l : Label} (w : WF s) (hs : step c s l
     · simp at hs
     · rename_i h hh
       split at hs
-      · rename_i lo hi more hpc
+      · rename_i lo hi more pos bad hpc
         have hok := w.pcOk h hh
         simp only [PcOk, hpc] at hok
+        have hb := chunkEnd_bounds (c := c) hok.2.2.2.2
+        have f := exporterCall_fields s pos (chunkEnd c pos hi) r
+        have w1 := wf_exporterCall w pos (chunkEnd c pos hi) r
         split at hs
+        · simp at hs; subst hs
+          have h1 := w1.pendingStop; have h2 := w1.stopPending h (by rw [f.2.1]; exact hh)
+          have h3 := w1.handlerUp; have h4 := w1.sendingBusy; have h5 := w1.curNone
+          constructor <;> simp_all [PcOk] <;> grind
         · split at hs
           · simp at hs; subst hs
-            rename_i hcur
-            have w1 : WF { deliver (ack s hi) lo hi with cur := some hi } := by
-              have := w.pendingStop
-              have := w.stopPending
-              have := w.handlerUp
-              have := w.pcOk
-              constructor <;> simp_all [deliver, ack]
-            exact wf_afterSend w1 (h0 := h) (by simp [deliver, ack, hh]) rfl (by simp)
+            exact wf_atSelect w1 (h0 := h) (by rw [f.2.1]; exact hh) rfl
+              (by rw [f.1]; simp only [PcOk]; exact ⟨hok.1, hok.2.1, hok.2.2.1⟩) (by simp)
           · simp at hs; subst hs
-            rename_i v hcur
-            have h1 := w.pendingStop
-            have h2 := w.stopPending h hh
-            have h3 := w.handlerUp
-            constructor <;> simp_all [deliver, ack, PcOk] <;> grind
-        · simp at hs; subst hs
-          exact wf_atSelect w hh rfl (by simpa [PcOk] using hok) (by simp)
-        · simp at hs; subst hs
-          have w1 : WF (deliver s lo hi) := by
-            have := w.pendingStop
-            have := w.stopPending
-            have := w.handlerUp
-            have := w.pcOk
-            have := w.sendingBusy
-            have := w.curNone
-            constructor <;> simp_all [deliver]
-          exact wf_atSelect w1 (h0 := h) (by simp [deliver, hh]) rfl (by simpa [PcOk, deliver] using hok) (by simp)
+            exact wf_exportDone w1 (by rw [f.2.1]; exact hh) (by simp [hpc])
       · simp at hs
   | persist i ok coin =>
     simp only [step] at hs
@@ -279,6 +307,7 @@ theorem wf_step {c : Cfg} {s s' : State} {l : Label} (w : WF s) (hs : step c s l
       split at hs <;> simp at hs <;> subst hs
       · constructor <;> simp_all [PcOk] <;> grind
       · constructor <;> simp_all [PcOk] <;> grind
+      · constructor <;> simp_all [PcOk, enterExport] <;> grind
       · constructor <;> simp_all [PcOk] <;> grind
       · exact w
 
